@@ -295,16 +295,16 @@ def build_h4():
 
 def specs(tier):
     import c03
-    out = [Spec("h1_apply_rule", build_h1(), cfg=cfg(), unwind=3, timeout=900,
+    out = [Spec("h1_apply_rule", build_h1(), cfg=cfg(), unwind=3, timeout=2700,
                 desc="real BeneficiaryMode::apply + BeneficiaryReward::from_gas with revm's context/journal/hook uninterpreted",
                 bounds={"gas_and_price_bits": 6, "forks": "all SpecId values"})]
     for s in c03.specs(tier):
         if s.name == "h1_commit_nonce":
             s.name = "h2_commit_fold"
             out.append(s)
-    out.append(Spec("h3_history_resolve_validate", build_h3(), cfg=hist_cfg(), unwind=HN + 3, timeout=900,
+    out.append(Spec("h3_history_resolve_validate", build_h3(), cfg=hist_cfg(), unwind=HN + 3, timeout=2700,
                     desc="real BeneficiaryHistory::{resolve_before, validate, record_estimate} from ANY entry vector (3 transactions: estimate / unchanged / reward / "
                          "snapshot, any incarnations, any anchor)", bounds={"n": HN, "value_bits": 8}))
-    out.append(Spec("h4_history_invalidate", build_h4(), cfg=hist_cfg(), unwind=HN + 3, timeout=600,
+    out.append(Spec("h4_history_invalidate", build_h4(), cfg=hist_cfg(), unwind=HN + 3, timeout=1800,
                     desc="real BeneficiaryHistory::invalidate from any entry vector", bounds={"n": HN}))
     return out
